@@ -124,7 +124,9 @@ func checkC13(sc *Scenario, st *Stats) *Violation {
 }
 
 func genC13(t *rapid.T) *Scenario {
-	sc := GenTreeScenario(t, TreeCfg{MaxInvs: 3, Budget: 10, EmptyData: 20, ValuePct: 65, LowGasPct: 10, AllKinds: true})
+	// half of the trees also register and journal storage keys: the balance list
+	// shares the per-account structures of the state-change tracer with them
+	sc := GenTreeScenario(t, TreeCfg{MaxInvs: 3, Budget: 10, EmptyData: 20, ValuePct: 65, LowGasPct: 10, AllKinds: true, Journal: rapid.Bool().Draw(t, "journal")})
 	if chance(t, 25, "faults") {
 		sc.Faults = append(sc.Faults, Fault{Lookup: rapid.IntRange(0, 10).Draw(t, "faultat"), Text: "injected provider failure"})
 	}
